@@ -28,7 +28,7 @@ Pick == /\ phase = "pick"
         /\ i' = 1 /\ phase' = "common"
         /\ UNCHANGED <<l, res>>
 
-MinLen == Min(Len(l.ver), Len(r.ver))
+MinLen == MinOf(Len(l.ver), Len(r.ver))
 
 CommonDiffer == /\ phase = "common" /\ i <= MinLen /\ l.ver[i] # r.ver[i]
                 /\ res' = TestComp(l.ver[i], op, r.ver[i]) /\ phase' = "done"
